@@ -16,8 +16,8 @@ Local Open Scope N_scope.
 (* Parents first, never twice, no panic — for every history.  From the initial state (only the
    root known), for every list of bad blocks and every history of block announces, externally
    imported blocks, finalisations and Process calls with ARBITRARY results (split, reordered,
-   duplicated, forked, disconnected, forged, empty, unfinished; at most 12 per call, requests
-   asking for bodies as every request of full sync does):
+   duplicated, forked, disconnected, forged, empty, unfinished; at most 12 ready fragments per
+   call, requests asking for bodies as every request of full sync does):
    - no Process call panics,
    - every Process call returns without an importer error,
    - history_ok_b holds of what the run shows: over the whole history the importer is never
